@@ -48,6 +48,9 @@ def run(model, res, tier):
         m, f = model.registered(n)
         keys.append((m.name, m.qualname_of(f)))
     region = c.cg.reachable(keys)
+    res.rule('RX', 'where a function answers "an error rather than a value" by raising, the catch-all of parse() turns every exception class into #ERROR! (shared with C01.R1)')
+    from . import c01 as _c01
+    H.borrow(res, 'RX', 'catch-all of parse()', lambda tmp: _c01.catch_all_rule(model, tmp, c))
     purity.check_region(res, c, 'R8', None, region, 'an integer/radix function')
     purity.check_memo(res, c, 'R8', region, 'an integer/radix function')
 
@@ -367,6 +370,63 @@ def _roundtrip_table(model, res):
                               'HEX2DEC(DEC2HEX(n)) = n' % (num, ', %d' % places if places else '', h, back, num, want),
                               case=case, func=f.name)
     res.soft_floor('DEC2HEX/HEX2DEC constant round trips decided', n, 30)
+    # DECIMAL(BASE(n, r), r) = n at both ends of the radix range and in between; ARABIC(ROMAN(n, form)) = n for every form (a whole-valued
+    # float form counting like the integer)
+    n2 = 0
+    cases = [('BASE', 'DECIMAL', (num, r), (r,)) for r in (2, 3, 10, 16, 35, 36) for num in (0, 1, r - 1, r, 255, r * r - 1, 46655)]
+    cases += [('ROMAN', 'ARABIC', (num, form), ()) for num in (1, 4, 9, 14, 40, 90, 400, 499, 1994, 3999) for form in (0, 1, 2, 3, 4)]
+    cases += [('ROMAN', 'ARABIC', (num, form), ()) for num in (499, 1994) for form in (0.0, 2.0, 4.0)]
+    for fwd, back, args, extra in cases:
+        if fwd not in model.registry or back not in model.registry:
+            continue
+        m2, f2 = model.registered(fwd)
+        case = {'call': '%s%r' % (fwd, args)}
+        try:
+            o1 = H.run_function(model, H.registry_func(model, fwd), lambda: [Const(a) for a in args])
+            if len(o1) != 1 or o1[0].imprecise or not (o1[0].kind == 'raise' or isinstance(o1[0].value, (Const, Err))):
+                res.ob('R3', fwd, case, True, 'undecided: %s' % '; '.join(H.describe(o1))[:100])
+                continue
+            if o1[0].kind == 'raise' or isinstance(o1[0].value, Err) or not isinstance(o1[0].value.value, str):
+                n2 += 1
+                res.ob('R3', fwd, case, False, H.describe(o1)[:1])
+                res.violation('R3', 'function:%s:round-trip' % fwd, m2.where(f2),
+                              '%s%r %s; it must give the digits of the number, which %s turns back into %r'
+                              % (fwd, args, H.describe(o1)[0], back, args[0]), case=case, func=f2.name)
+                continue
+            text = o1[0].value.value
+            if fwd == 'ROMAN' and args[1] != 0:
+                # a concise form need not be accepted by ARABIC, but it denotes n: read by the subtractive rule (a smaller symbol in front of
+                # a larger one is subtracted)
+                n2 += 1
+                vals = {'I': 1, 'V': 5, 'X': 10, 'L': 50, 'C': 100, 'D': 500, 'M': 1000}
+                ok = bool(text) and all(ch in vals for ch in text)
+                if ok:
+                    total = 0
+                    for i_, ch in enumerate(text):
+                        v_ = vals[ch]
+                        total += -v_ if any(vals[c2] > v_ for c2 in text[i_ + 1:i_ + 2]) else v_
+                    ok = total == args[0]
+                res.ob('R3', fwd, dict(case, text=text), ok)
+                if not ok:
+                    res.violation('R3', 'function:%s:round-trip' % fwd, m2.where(f2),
+                                  '%s%r gives %r, which does not denote %r' % (fwd, args, text, args[0]), case=case, func=f2.name)
+                continue
+            o2 = H.run_function(model, H.registry_func(model, back), lambda: [Const(text)] + [Const(a) for a in extra])
+            if len(o2) != 1 or o2[0].imprecise or o2[0].kind != 'return' or not isinstance(o2[0].value, (Const, Err)):
+                res.ob('R3', fwd, case, True, 'undecided: %s' % '; '.join(H.describe(o2))[:100])
+                continue
+        except Unmodelled as e:
+            res.ob('R3', fwd, case, True, 'undecided: %s' % e)
+            continue
+        n2 += 1
+        b_ = o2[0].value
+        ok = isinstance(b_, Const) and b_.value == args[0] and not isinstance(b_.value, bool)
+        res.ob('R3', fwd, dict(case, text=text, back=repr(b_)), ok)
+        if not ok:
+            res.violation('R3', 'function:%s:round-trip' % fwd, m2.where(f2),
+                          '%s%r gives %r and %s of that gives %r, not %r: the conversions are mutually inverse' % (fwd, args, text, back, b_, args[0]),
+                          case=case, func=f2.name)
+    res.soft_floor('BASE/DECIMAL and ROMAN/ARABIC constant round trips decided', n2, 60)
 
 
 def _table_nodes(m, f):
